@@ -296,6 +296,8 @@ func c14(r *core.Report) {
 	// callback has finished with the message
 	r.Rule("C14-COMMIT", "hub Deliver returns success only after the callback finished (buffer ownership hand-back)", 8)
 	ruleCommit(r, h, "C14-COMMIT")
+	r.Rule("C14-DONE-AFTER-CALLBACK", "hub Receive/ServeAsk signal completion only after the callback returned (the buffer is the callback's until then)", 9)
+	ruleDoneAfterCallback(r, h, "C14-DONE-AFTER-CALLBACK")
 
 	// ---- C14-FREELIST
 	r.Rule("C14-FREELIST", "queue buffers: back to the freelist only after the callback, zeroed; payload rebuilt from length 0 before queueing", 3)
